@@ -418,14 +418,8 @@ fn digest(
     part.evals += o.comparisons + o.committed.iter().map(|c| c.len() as u64).sum::<u64>();
     match res {
         Ok(()) => {}
-        Err(msg) if msg.contains("protocol violation") => {
-            let kind = if msg.contains("truncate committed") {
-                "truncate-committed"
-            } else if msg.contains("two leaders") {
-                "two-leaders-one-term"
-            } else {
-                "other"
-            };
+        Err(msg) if guard_kind(&msg).is_some() => {
+            let kind = guard_kind(&msg).unwrap();
             let mut case = case_json(n, family, script_seed, bytes);
             case["observed_committed"] = json!(o.committed);
             part.violation(
@@ -502,24 +496,36 @@ fn digest(
     }
 }
 
+/// What a child process reports on its last stdout line (`P{json}`).
+#[derive(Default, serde::Serialize, serde::Deserialize)]
 struct WorkerOut {
     part: Partial,
-    sets: BTreeMap<&'static str, HashSet<u64>>,
+    sets: BTreeMap<String, Vec<u64>>,
     secs: f64,
+    /// exhaustive children: Ok(executions) / Err(message)
+    exhaustive: Option<Result<usize, String>>,
+}
+
+/// The i-th schedule of a run is a pure function of (seed, n, i).
+fn schedule_params(seed: u64, n: usize, i: usize) -> (usize, u64, Vec<u8>) {
+    let mut rng = Rng::new(seed).fork((n as u64) << 40 | i as u64);
+    let family = i % 3;
+    let script_seed = rng.next_u64();
+    let bytes = sched_bytes(&mut rng);
+    (family, script_seed, bytes)
 }
 
 fn worker(n: usize, total: usize, wi: usize, w: usize, seed: u64) -> WorkerOut {
     let sim = build(n);
     let t0 = std::time::Instant::now();
     let mut part = Partial::default();
-    let mut sets = BTreeMap::new();
-    let base = Rng::new(seed);
+    let mut sets: BTreeMap<&'static str, HashSet<u64>> = BTreeMap::new();
     let mut i = wi;
     while i < total {
-        let mut rng = base.fork((n as u64) << 40 | i as u64);
-        let family = i % 3;
-        let script_seed = rng.next_u64();
-        let bytes = sched_bytes(&mut rng);
+        let (family, script_seed, bytes) = schedule_params(seed, n, i);
+        // announce the schedule before running it: if the program under test aborts the process (a panic inside
+        // the simulator's dylib cannot be caught), the parent knows which schedule did it
+        println!("@{i}");
         let obs = Mutex::new(Obs::new(n));
         let ports = sim.ports();
         let res = run_schedule(&sim.sim, bytes.clone(), async || {
@@ -531,8 +537,9 @@ fn worker(n: usize, total: usize, wi: usize, w: usize, seed: u64) -> WorkerOut {
     }
     WorkerOut {
         part,
-        sets,
+        sets: sets.into_iter().map(|(k, v)| (k.to_string(), v.into_iter().collect())).collect(),
         secs: t0.elapsed().as_secs_f64(),
+        exhaustive: None,
     }
 }
 
@@ -562,10 +569,11 @@ fn parse_scenario(s: &str) -> Vec<Vec<Act>> {
 }
 
 /// Bounded-exhaustive part on a 3-member cluster: the simulator enumerates every schedule of `scenario`.
-fn exhaustive_small(rep: &mut Reporter, scenario: &str) -> bool {
+fn exhaustive_small(scenario: &str) -> WorkerOut {
     let bursts = parse_scenario(scenario);
     let sim = build(3);
     let ports = sim.ports();
+    let t0 = std::time::Instant::now();
     let agg: Mutex<(Partial, BTreeMap<&'static str, HashSet<u64>>)> =
         Mutex::new((Partial::default(), BTreeMap::new()));
     let res = run_exhaustive(&sim.sim, async || {
@@ -589,8 +597,7 @@ fn exhaustive_small(rep: &mut Reporter, scenario: &str) -> bool {
             part.violation(
                 &format!("C40|raft|{kind}|exhaustive"),
                 detail,
-                json!({"engine":"hv_sim_b","test":"c40_raft","protocol":"raft","n":3,"family":"exhaustive",
-                       "scenario":scenario,"observed_committed":o.committed}),
+                exhaustive_case(scenario, Some(&o)),
             );
         }
         let committers = o.committed.iter().filter(|c| !c.is_empty()).count();
@@ -605,41 +612,155 @@ fn exhaustive_small(rep: &mut Reporter, scenario: &str) -> bool {
             .insert(hash_of(&(&o.committed, &o.views)));
     });
     let (part, sets) = agg.into_inner().unwrap_or_else(|e| e.into_inner());
-    let errs = part.merge_into(rep, &[]);
-    for e in errs {
-        rep.require(false, &format!("harness error in exhaustive part: {e}"));
+    WorkerOut {
+        part,
+        sets: sets.into_iter().map(|(k, v)| (k.to_string(), v.into_iter().collect())).collect(),
+        secs: t0.elapsed().as_secs_f64(),
+        exhaustive: Some(res),
     }
-    for (k, s) in sets {
-        rep.extra(&format!("{k} [{scenario}]"), json!(s.len()));
+}
+
+fn exhaustive_case(scenario: &str, o: Option<&Obs>) -> Value {
+    let mut c = json!({"engine":"hv_sim_b","test":"c40_raft","protocol":"raft","n":3,"family":"exhaustive",
+                       "scenario":scenario});
+    if let Some(o) = o {
+        c["observed_committed"] = json!(o.committed);
     }
-    match res {
-        Ok(nexec) => {
-            rep.extra(&format!("exhaustive_executions [{scenario}]"), json!(nexec));
-            true
+    c
+}
+
+/// Classify the text of a safety-guard panic of the implementation.
+fn guard_kind(msg: &str) -> Option<&'static str> {
+    if !msg.contains("protocol violation") {
+        None
+    } else if msg.contains("truncate committed") {
+        Some("truncate-committed")
+    } else if msg.contains("two leaders") {
+        Some("two-leaders-one-term")
+    } else {
+        Some("other")
+    }
+}
+
+// -------------------------------------------------------------------------------------------------
+// Child processes. A panic raised inside the simulator's dylib (e.g. raft_step's own "protocol violation" guards)
+// cannot be caught by the host ("Rust cannot catch foreign exceptions") and aborts the process, so every
+// simulator execution of this test runs in a child process: the same test binary re-invoked with
+// VERIF_C40_CHILD=<spec>. A child prints `@<i>` before schedule i and `P<json WorkerOut>` at the end.
+
+const CHILD_ENV: &str = "VERIF_C40_CHILD";
+
+struct ChildResult {
+    out: Option<WorkerOut>,
+    last_started: Option<usize>,
+    ok: bool,
+    stderr_tail: String,
+}
+
+fn run_child(spec: &str) -> ChildResult {
+    let exe = std::env::current_exe().expect("current_exe");
+    let output = std::process::Command::new(exe)
+        .args(["tests::c40_raft", "--exact", "--nocapture", "--test-threads", "1"])
+        .env(CHILD_ENV, spec)
+        .stdin(std::process::Stdio::null())
+        .output()
+        .expect("spawn child");
+    let stdout = String::from_utf8_lossy(&output.stdout);
+    let mut last_started = None;
+    let mut out = None;
+    for line in stdout.lines() {
+        if let Some(i) = line.strip_prefix('@') {
+            last_started = i.trim().parse().ok();
+        } else if let Some(j) = line.strip_prefix('P') {
+            out = serde_json::from_str::<WorkerOut>(j).ok();
+        } else if line.starts_with('{') {
+            // replay children print notes / nothing else is expected
+            println!("{line}");
         }
-        Err(msg) => {
-            if msg.contains("protocol violation") {
-                rep.violation(
-                    "C40|raft|guard-panic|exhaustive",
-                    &format!("the implementation's own safety guard fired in the exhaustive scenario: {msg}"),
-                    json!({"engine":"hv_sim_b","test":"c40_raft","protocol":"raft","n":3,
-                           "family":"exhaustive","scenario":scenario}),
-                );
-            } else {
-                rep.require(false, &format!("exhaustive exploration stopped: {msg}"));
+    }
+    let stderr = String::from_utf8_lossy(&output.stderr);
+    // keep the child's diagnostics in the log, without the exhaustive engine's progress chatter
+    for l in stderr.lines().filter(|l| !l.starts_with("test <unknown>")) {
+        eprintln!("[child {spec}] {l}");
+    }
+    let tail: Vec<&str> = stderr.lines().filter(|l| l.contains("panicked") || l.contains("protocol violation") || l.contains("fatal runtime error")).collect();
+    ChildResult {
+        out,
+        last_started,
+        ok: output.status.success(),
+        stderr_tail: tail.join(" / "),
+    }
+}
+
+fn child_main(spec: &str) {
+    let f: Vec<&str> = spec.split(':').collect();
+    let out = match f[0] {
+        "fuzz" => {
+            let p: Vec<u64> = f[1..].iter().map(|x| x.parse().expect("child spec")).collect();
+            worker(p[0] as usize, p[1] as usize, p[2] as usize, p[3] as usize, p[4])
+        }
+        "exh" => exhaustive_small(f[1]),
+        "replay" => {
+            let args = Args::from_env();
+            let case = args.replay_case().expect("replay case");
+            replay_in_child(&case)
+        }
+        other => panic!("bad child spec {other}"),
+    };
+    println!("P{}", serde_json::to_string(&out).unwrap());
+}
+
+/// Fold a finished child into the reporter. Returns false if the child died.
+fn absorb_child(
+    rep: &mut Reporter,
+    all_sets: &mut BTreeMap<String, HashSet<u64>>,
+    r: ChildResult,
+    describe_abort: impl FnOnce(Option<usize>) -> Value,
+    sig_suffix: &str,
+) -> Option<WorkerOut> {
+    match r.out {
+        Some(mut o) if r.ok => {
+            let part = std::mem::take(&mut o.part);
+            for e in part.merge_into(rep, &["max_term", "max_log_len"]) {
+                rep.require(false, &format!("harness error: {e}"));
             }
-            false
+            for (k, v) in std::mem::take(&mut o.sets) {
+                all_sets.entry(k).or_default().extend(v);
+            }
+            Some(o)
+        }
+        _ => {
+            rep.count("children_that_died");
+            match guard_kind(&r.stderr_tail) {
+                Some(kind) => {
+                    let mut case = describe_abort(r.last_started);
+                    case["child_stderr"] = json!(r.stderr_tail);
+                    rep.violation(
+                        &format!("C40|raft|guard-panic:{kind}|{sig_suffix}"),
+                        &format!(
+                            "the implementation's own safety guard fired (and aborted the simulator process): {}",
+                            r.stderr_tail
+                        ),
+                        case,
+                    );
+                }
+                None => rep.require(
+                    false,
+                    &format!("a child process died without a safety-guard message: {}", r.stderr_tail),
+                ),
+            }
+            None
         }
     }
 }
 
-fn replay(case: &Value, rep: &mut Reporter) {
+/// Runs inside a child: re-run exactly one recorded case.
+fn replay_in_child(case: &Value) -> WorkerOut {
     let n = case["n"].as_u64().unwrap_or(3) as usize;
     let fam_name = case["family"].as_str().unwrap_or("targeted");
     if fam_name == "exhaustive" {
         let scenario = case["scenario"].as_str().unwrap_or(EXHAUSTIVE_QUICK[0]).to_string();
-        exhaustive_small(rep, &scenario);
-        return;
+        return exhaustive_small(&scenario);
     }
     let family = FAMILIES.iter().position(|f| *f == fam_name).unwrap_or(0);
     let script_seed = case["script_seed"].as_u64().expect("script_seed");
@@ -647,6 +768,7 @@ fn replay(case: &Value, rep: &mut Reporter) {
     let sim = build(n);
     let obs = Mutex::new(Obs::new(n));
     let ports = sim.ports();
+    println!("@0");
     let res = run_schedule(&sim.sim, bytes.clone(), async || {
         drive(ports, family, script_seed, &obs).await
     });
@@ -656,11 +778,19 @@ fn replay(case: &Value, rep: &mut Reporter) {
         json!({"t":"note","replay":"c40_raft","result":format!("{res:?}"),"committed":o.committed,"views":o.views})
     );
     let mut part = Partial::default();
-    let mut sets = BTreeMap::new();
+    let mut sets: BTreeMap<&'static str, HashSet<u64>> = BTreeMap::new();
     digest(&mut part, &mut sets, n, family, script_seed, &bytes, res, o);
-    for e in part.merge_into(rep, &["max_term", "max_log_len"]) {
-        rep.require(false, &format!("harness error: {e}"));
+    WorkerOut {
+        part,
+        ..Default::default()
     }
+}
+
+fn replay(case: &Value, rep: &mut Reporter) {
+    let r = run_child("replay");
+    let mut sets = BTreeMap::new();
+    let case2 = case.clone();
+    absorb_child(rep, &mut sets, r, move |_| case2, "replay");
 }
 
 const RULE: &str = "Each case is one simulator schedule of the shipped raft_server on N members (fail-stop \
@@ -674,6 +804,12 @@ different members won an election in it; distinct = distinct (committed historie
 
 pub fn raft() {
     println!();
+    if let Ok(spec) = std::env::var(CHILD_ENV) {
+        if !spec.is_empty() {
+            child_main(&spec);
+            return;
+        }
+    }
     let args = Args::from_env();
     if args.prop == "NONE" {
         return;
@@ -694,32 +830,38 @@ pub fn raft() {
         Tier::Miri => vec![(3, 50)],
     };
     let w = workers(2, 6, args.tier);
-    let mut all_sets: BTreeMap<&'static str, HashSet<u64>> = BTreeMap::new();
+    let seed = args.seed;
+    let mut all_sets: BTreeMap<String, HashSet<u64>> = BTreeMap::new();
     let mut rates = vec![];
     for (n, total) in plan {
-        let outs: Vec<WorkerOut> = std::thread::scope(|s| {
+        let results: Vec<ChildResult> = std::thread::scope(|s| {
             let hs: Vec<_> = (0..w)
-                .map(|wi| {
-                    let seed = args.seed;
-                    s.spawn(move || worker(n, total, wi, w, seed))
-                })
+                .map(|wi| s.spawn(move || run_child(&format!("fuzz:{n}:{total}:{wi}:{w}:{seed}"))))
                 .collect();
-            hs.into_iter().map(|h| h.join().expect("worker thread")).collect()
+            hs.into_iter().map(|h| h.join().expect("child waiter")).collect()
         });
-        let secs = outs.iter().map(|o| o.secs).fold(0.0, f64::max);
-        rates.push(json!({"n":n,"schedules":total,"workers":w,"seconds":secs,
-                          "schedules_per_second": total as f64 / secs.max(1e-9)}));
-        for o in outs {
-            for e in o.part.merge_into(&mut rep, &["max_term", "max_log_len"]) {
-                rep.require(false, &format!("harness error: {e}"));
-            }
-            for (k, s) in o.sets {
-                all_sets.entry(k).or_default().extend(s);
+        let mut secs = 0.0f64;
+        for r in results {
+            let o = absorb_child(
+                &mut rep,
+                &mut all_sets,
+                r,
+                |last| match last {
+                    Some(i) => {
+                        let (family, script_seed, bytes) = schedule_params(seed, n, i);
+                        case_json(n, family, script_seed, &bytes)
+                    }
+                    None => json!({"engine":"hv_sim_b","test":"c40_raft","protocol":"raft","n":n,
+                                   "note":"child died before its first schedule"}),
+                },
+                &format!("n={n}"),
+            );
+            if let Some(o) = o {
+                secs = secs.max(o.secs);
             }
         }
-    }
-    for (k, s) in &all_sets {
-        rep.extra(k, json!(s.len()));
+        rates.push(json!({"n":n,"schedules":total,"worker_processes":w,"seconds":secs,
+                          "schedules_per_second": total as f64 / secs.max(1e-9)}));
     }
     rep.extra("throughput", json!(rates));
     rep.extra("scheduler_decision_bytes_per_schedule", json!(super::util::SCHED_BYTES));
@@ -728,8 +870,28 @@ pub fn raft() {
     if args.tier != Tier::Miri {
         let scenarios: &[&str] = if args.tier == Tier::Thorough { &EXHAUSTIVE_THOROUGH } else { &EXHAUSTIVE_QUICK };
         for sc in scenarios {
-            exhaustive_done &= exhaustive_small(&mut rep, sc);
+            let r = run_child(&format!("exh:{sc}"));
+            let mut sets = BTreeMap::new();
+            match absorb_child(&mut rep, &mut sets, r, |_| exhaustive_case(sc, None), "exhaustive") {
+                Some(o) => {
+                    for (k, s) in sets {
+                        rep.extra(&format!("{k} [{sc}]"), json!(s.len()));
+                    }
+                    match o.exhaustive {
+                        Some(Ok(nexec)) => rep.extra(&format!("exhaustive_executions [{sc}]"), json!(nexec)),
+                        Some(Err(msg)) => {
+                            exhaustive_done = false;
+                            rep.require(false, &format!("exhaustive exploration of {sc} stopped: {msg}"));
+                        }
+                        None => exhaustive_done = false,
+                    }
+                }
+                None => exhaustive_done = false,
+            }
         }
+    }
+    for (k, s) in &all_sets {
+        rep.extra(k, json!(s.len()));
     }
 
     let sched = rep.counter("schedules").max(1);
@@ -752,6 +914,10 @@ pub fn raft() {
             "too few rounds with concurrent candidates",
         );
         rep.require(rep.counter("max_term") >= 4, "terms never exceeded 3");
+        rep.require(
+            rep.counter("exhaustive_executions_two_members_committed") >= 1000,
+            "the exhaustive scenario never had two committing members",
+        );
     }
     rep.finish(RULE, exhaustive_done);
 }
@@ -764,18 +930,15 @@ pub fn raft() {
 pub const EXHAUSTIVE_QUICK: [&str; 1] = ["e0|r0h0|h0"];
 pub const EXHAUSTIVE_THOROUGH: [&str; 2] = ["e0|r0h0|h0", "e0r0h0"];
 
-/// Probe used while sizing the exhaustive scenario (not registered).
+/// Probe used while sizing the exhaustive scenario (not registered; runs in-process).
 pub fn probe_exhaustive() {
     let sc = std::env::var("VERIF_PROBE_SCENARIO").unwrap_or_else(|_| "e0r0h0".to_string());
-    let mut rep = Reporter::new("C40", 1);
     let t0 = std::time::Instant::now();
-    let ok = exhaustive_small(&mut rep, &sc);
+    let o = exhaustive_small(&sc);
     println!(
-        "probe_exhaustive scenario={sc} ok={ok} executions={} with_commit={} two_committers={} in {:?}",
-        rep.counter("exhaustive_executions"),
-        rep.counter("exhaustive_executions_with_commit"),
-        rep.counter("exhaustive_executions_two_members_committed"),
+        "probe_exhaustive scenario={sc} result={:?} counters={:?} in {:?}",
+        o.exhaustive,
+        o.part.counters,
         t0.elapsed()
     );
-    rep.finish("probe", ok);
 }
